@@ -78,6 +78,25 @@ CHECKS = {
         "Trusted: the reference loops (mc/props/C14.py), numpy, JAX itself. Bounds: n<=6 (10 thorough), T<=7 (11), n_sub<=4 (7).",
         "DESIGN.md §4 C14",
     ),
+    "C15": (
+        "bounded exhaustive exploration: all (N_old, N_new) pairs x full Nyquist-free basis and all grid deltas (linearity lift); delta x grid-point table for the interpolant",
+        "map_between_resolutions is run for every (N_old, N_new) pair of a range with all parity combinations and +-1, channel counts and both "
+        "oddball_zero values on every Nyquist-free basis function (exact resampling, up-then-down identity) and on every grid delta (mean "
+        "preservation for all states). FourierInterpolator is evaluated for every grid delta at every grid point (identity table => reproduces "
+        "every state at its grid points) and for every basis function at off-grid, irrational, negative and beyond-domain query points against the "
+        "analytic value, for both indexings and three domain extents.",
+        "Trusted: analytic cosines, numpy. Bounds on N ranges and the finite query alphabet.",
+        "DESIGN.md §4 C15",
+    ),
+    "C17": (
+        "bounded exhaustive exploration: every wavevector of every grid as a single-mode field x options; all basis pairs for the quadratic power spectrum",
+        "get_spectrum is run on a*cos(k.x+phase) for every wavevector of the grid (all sign combinations, corners outside the Nyquist sphere, DC, "
+        "Nyquist) x 3 amplitude/phase pairs x power/amplitude x sum/average x 1-2 channels and compared with the documented bin floor(|k|+1/2), "
+        "amplitude a, Parseval weight and per-bin stored-mode counts computed from an independent layout rule. Since the power spectrum is a "
+        "quadratic form per bin, all basis pairs (thinned only on the largest grids, stated in notes) decide arbitrary states against an explicit per-mode sum.",
+        "Trusted: own binning rule and per-mode sums (numpy). Bounds on N. Empty bins under 'average' (mean of an empty set) are outside the property and masked.",
+        "DESIGN.md §4 C17",
+    ),
 }
 
 NOT_YET = "harness not built yet in this session (planned, see DESIGN.md §4)"
